@@ -16,7 +16,7 @@
                                                window_sum within L
      has_auth auths a                          the account's authorisation is attached to the call *)
 From SC Require Import Lib.Prelude Lib.Int Lib.Host Model.Policies Model.PoliciesSpec
-  Proofs.Policies Proofs.PoliciesSpend Proofs.PoliciesInv Proofs.PoliciesExact Proofs.C14Final Run.C14 Proofs.C14Monitor.
+  Proofs.Policies Proofs.PoliciesSpend Proofs.PoliciesInv Proofs.PoliciesExact Proofs.C14Final Proofs.PoliciesWindows Run.C14 Proofs.C14Monitor.
 From Coq Require Import Sorting.Sorted.
 
 (* ---- simple threshold: accepts exactly when the number of authenticated signers reaches the
@@ -134,6 +134,30 @@ Theorem C14_window : forall c n0 cs au a r ctx sgs,
 Proof. exact window_single. Qed.
 Print Assumptions C14_window.
 
+(* ---- every window.  run_lims instruments the run with, per installation, the log gi_log of
+   enforced (amount, ledger) and the parallel list ls of the limit that was in force at each of
+   those enforcements.  After any list of calls from a ledger >= 1, with non-negative amounts:
+   for ANY ledger m, the amounts of all transfers enforced at ledgers in (m - period, m] sum to at
+   most the limit that was in force at the last enforcement at or before m (e, with limit L; all
+   later entries, post, lie after m). ---- *)
+Theorem C14_any_window : forall c n0 cs k i ls,
+  1 <= n0 ->
+  let '(s, g, gl) := run_lims c (init n0) [] [] cs in
+  kget k g = Some i -> kget k gl = Some ls ->
+  Forall (fun x => 0 <= fst x) (gi_log i) ->
+  length ls = length (gi_log i) /\
+  forall m pre e post lspre L lspost,
+    gi_log i = pre ++ e :: post -> ls = lspre ++ L :: lspost -> length lspre = length pre ->
+    snd e <= m -> Forall (fun x => m < snd x) post ->
+    sum_entries (filter (fun x => (m - gi_period i <? snd x) && (snd x <=? m)) (gi_log i)) <= L.
+Proof. exact any_window. Qed.
+Print Assumptions C14_any_window.
+
+(* run_lims extends run_log (hence run) *)
+Theorem C14_run_lims_is_run_log : forall c cs s g gl, fst (run_lims c s g gl cs) = run_log c s g cs.
+Proof. exact run_lims_log. Qed.
+Print Assumptions C14_run_lims_is_run_log.
+
 (* several transfers inside one authorisation batch (one invocation, all or nothing) *)
 Theorem C14_window_batch : forall c n0 cs au a r ctxs sgs,
   1 <= n0 -> ctxs <> [] ->
@@ -249,4 +273,13 @@ Module NonVacuity.
     window_sum 11 10 [(100, 1); (-50, 2); (150, 11)] = 100 /\
     window_sum 12 10 [(100, 1); (-50, 2); (150, 11)] = 150.
   Proof. vm_compute. repeat split. Qed.
+  (* the instrumented run of C14_any_window on a non-trivial history: two enforcements under limit
+     100, the limit lowered to 70, a third enforcement after the first left the window *)
+  Example any_window_instance :
+    let '(s, g, gl) := run_lims c0 (init 5) [] []
+        (pre ++ [Enforce PL [1%N] 1%N 1%N [tr 40] [0%N]; LSetLimit [1%N] 1%N 1%N 70; Advance 1;
+                 Enforce PL [1%N] 1%N 1%N [tr 30] [0%N]]) in
+    option_map gi_log (kget (1%N, 1%N) g) = Some [(60, 5); (40, 14); (30, 15)] /\
+    kget (1%N, 1%N) gl = Some [100; 100; 70].
+  Proof. vm_compute. split; reflexivity. Qed.
 End NonVacuity.
